@@ -2,9 +2,9 @@ CONSTANTS
   Macs <- M2
   Ips <- I1
   Sw <- Sw2
-  Locs <- Locs3
+  Locs <- Locs2
   Links <- Cable
-  Kinds <- KFew
+  Kinds <- KTwo
   ArpAware = 60
   ArpSilent = 180
   ArpReply = 30
@@ -14,7 +14,7 @@ CONSTANTS
   MacLife = 120
   Strict = FALSE
   Flaps = FALSE
-  Deltas <- D3060
+  Deltas <- D60
   KeepHist = TRUE
   D = 3
 INIT Init
